@@ -100,6 +100,13 @@ def mc_inflate_core(c):
 
 def check_C03(c):
     g = gen_streams(c, True)
+    # several dynamic blocks per stream with long (11..15 bit) distance code words carrying many extra bits
+    g3 = c.generate("MC_GenAcc", "MC_GenAcc_simlong.cfg", 900 if thorough(c) else 200, 500)
+    # far matches made of maximal code words and extra bits (bit budget of one refill in the fast loop)
+    g4 = c.generate("MC_GenAcc", "MC_GenAcc_simfar.cfg", 900 if thorough(c) else 250, 500)
+    with open(g, "a") as f:
+        f.write(open(g3).read())
+        f.write(open(g4).read())
     c.scenario("genstreams", extra=["--in", g])
     c.scenario("entrypoints")
     return c.finish("model_checking", RULE_DEC, TRUST)
